@@ -1,0 +1,190 @@
+//go:build verif
+
+package avc
+
+// ---------------------------------------------------------------------------------------------------------------------
+// C14: NAL unit framing conversions preserve the NAL unit sequence.
+// ---------------------------------------------------------------------------------------------------------------------
+
+// ---- Annex B vocabulary ----------------------------------------------------------------------------------------------
+// isSC(s, q): a start code prefix 00 00 01 ends right before position q (q = position of the first byte after it).
+// scLen(s, q): its length as a start code: 4 if a zero byte precedes the prefix, else 3.
+// (`rec` only to make them function symbols for the solvers.)
+//@ spec rec isSC(s []byte, q int) bool = 3 <= q && q <= len(s) && s[q-3] == 0 && s[q-2] == 0 && s[q-1] == 1
+//@ spec rec scLen(s []byte, q int) int = ite(q >= 4 && s[q-4] == 0, 4, 3)
+
+// ---- the zero-byte-in-word trick ------------------------------------------------------------------------------------
+//@ func hasZeroByte
+//@   ensures[C14] result == (x&0xff == 0 || (x>>8)&0xff == 0 || (x>>16)&0xff == 0 || (x>>24)&0xff == 0 || (x>>32)&0xff == 0 || (x>>40)&0xff == 0 || (x>>48)&0xff == 0 || (x>>56)&0xff == 0)
+
+// ---- the start code table ---------------------------------------------------------------------------------------------
+// Soundness: every entry is a start code followed by at least one byte, with the right length; entries strictly increase.
+// Completeness (scComplete): every start code that ends at or before b and is followed by at least one byte is an entry,
+// i.e. the word-at-a-time scanner reports exactly the start codes a byte-by-byte scan reports.
+//@ pred scComplete(s []byte, t []scNalu, b int) = forall q int :: 3 <= q && q <= b && q < len(s) && isSC(s, q) ==> (exists k int :: 0 <= k && k < len(t) && t[k].startPos == q)
+
+//@ func getStartCodePositions
+//@   ensures[C14] forall k int :: 0 <= k && k < len(scNalus) ==> isSC(stream, scNalus[k].startPos) && scNalus[k].startPos < len(stream)
+//@   ensures[C14] forall k int :: 0 <= k && k < len(scNalus) ==> scNalus[k].startCodeLength == scLen(stream, scNalus[k].startPos)
+//@   ensures[C14] forall k int :: 0 < k && k < len(scNalus) ==> scNalus[k-1].startPos < scNalus[k].startPos
+//@   ensures[C14] (minStartCodeLength == 3 || minStartCodeLength == 4) && (minStartCodeLength == 4 ==> (forall k int :: 0 <= k && k < len(scNalus) ==> scNalus[k].startCodeLength == 4))
+//@   ensures[C14] minStartCodeLength == 3 ==> (exists k int :: 0 <= k && k < len(scNalus) && scNalus[k].startCodeLength == 3)
+//@   ensures[C14] scComplete(stream, scNalus, len(stream))
+//@   ensures[C14] len(scNalus) <= len(stream)
+//@   assigns nothing
+// ASSUMPTIONS (reported): the verifier does not model the word load through unsafe.Pointer (the loaded value is arbitrary).
+// (1) the load itself is not a nil dereference; (2) across one iteration of the word loop the completeness clause is
+// preserved: this is where "a word without a zero byte contains no first byte of a start code" enters, which needs
+// "the word at &stream[i] consists of stream[i..i+7]" (Go memory layout) plus the verified contract of hasZeroByte. The
+// probing path of the same iteration is covered by loop 2 (inv-init:2 / inv-pres:2 of the same clause are NOT trusted).
+//@   trustkind nil@*(*uint)(unsafe.Pointer(&stream[i]))
+//@   trustkind inv-pres:1@scComplete(stream,scNalus,i+2)
+//@   loop 1 invariant 0 <= i && i%8 == 0 && (streamLenLim <= 0 ==> i == 0) && (streamLenLim > 0 ==> i <= streamLenLim) && i <= len(stream)
+//@   loop 1 invariant forall k int :: 0 <= k && k < len(scNalus) ==> isSC(stream, scNalus[k].startPos) && scNalus[k].startPos < len(stream)
+//@   loop 1 invariant forall k int :: 0 <= k && k < len(scNalus) ==> scNalus[k].startCodeLength == scLen(stream, scNalus[k].startPos)
+//@   loop 1 invariant forall k int :: 0 < k && k < len(scNalus) ==> scNalus[k-1].startPos < scNalus[k].startPos
+//@   loop 1 invariant (minStartCodeLength == 3 || minStartCodeLength == 4) && (minStartCodeLength == 4 ==> (forall k int :: 0 <= k && k < len(scNalus) ==> scNalus[k].startCodeLength == 4))
+//@   loop 1 invariant minStartCodeLength == 3 ==> (exists k int :: 0 <= k && k < len(scNalus) && scNalus[k].startCodeLength == 3)
+//@   loop 1 invariant len(scNalus) > 0 ==> scNalus[len(scNalus)-1].startPos <= i+2
+//@   loop 1 invariant len(scNalus) <= i
+//@   loop 1 invariant scComplete(stream, scNalus, i+2)
+//@   loop 2 invariant 0 <= i && i%8 == 0 && i < streamLenLim && i+1 <= j && j <= i+9 && (j-i)%2 == 1
+//@   loop 2 invariant forall k int :: 0 <= k && k < len(scNalus) ==> isSC(stream, scNalus[k].startPos) && scNalus[k].startPos < len(stream)
+//@   loop 2 invariant forall k int :: 0 <= k && k < len(scNalus) ==> scNalus[k].startCodeLength == scLen(stream, scNalus[k].startPos)
+//@   loop 2 invariant forall k int :: 0 < k && k < len(scNalus) ==> scNalus[k-1].startPos < scNalus[k].startPos
+//@   loop 2 invariant (minStartCodeLength == 3 || minStartCodeLength == 4) && (minStartCodeLength == 4 ==> (forall k int :: 0 <= k && k < len(scNalus) ==> scNalus[k].startCodeLength == 4))
+//@   loop 2 invariant minStartCodeLength == 3 ==> (exists k int :: 0 <= k && k < len(scNalus) && scNalus[k].startCodeLength == 3)
+//@   loop 2 invariant len(scNalus) > 0 ==> scNalus[len(scNalus)-1].startPos <= j+1
+//@   loop 2 invariant len(scNalus) <= j-1
+//@   loop 2 invariant scComplete(stream, scNalus, j+1)
+//@   loop 3 invariant 0 <= i && i <= len(stream)
+//@   loop 3 invariant forall k int :: 0 <= k && k < len(scNalus) ==> isSC(stream, scNalus[k].startPos) && scNalus[k].startPos < len(stream)
+//@   loop 3 invariant forall k int :: 0 <= k && k < len(scNalus) ==> scNalus[k].startCodeLength == scLen(stream, scNalus[k].startPos)
+//@   loop 3 invariant forall k int :: 0 < k && k < len(scNalus) ==> scNalus[k-1].startPos < scNalus[k].startPos
+//@   loop 3 invariant (minStartCodeLength == 3 || minStartCodeLength == 4) && (minStartCodeLength == 4 ==> (forall k int :: 0 <= k && k < len(scNalus) ==> scNalus[k].startCodeLength == 4))
+//@   loop 3 invariant minStartCodeLength == 3 ==> (exists k int :: 0 <= k && k < len(scNalus) && scNalus[k].startCodeLength == 3)
+//@   loop 3 invariant len(scNalus) > 0 ==> scNalus[len(scNalus)-1].startPos <= i+2
+//@   loop 3 invariant len(scNalus) <= i
+//@   loop 3 invariant scComplete(stream, scNalus, i+2)
+
+// ---- Annex B -> length-prefixed sample ---------------------------------------------------------------------------------
+// Domain: 4-byte length fields, so streams of 4 GiB or more are excluded (as for the sample walkers).
+// With the table contract of getStartCodePositions (assumed at the call) every index, slice and make in both paths is in
+// range; the in-place path returns the argument, the copying path a new slice.
+//@ func ConvertByteStreamToNaluSample
+//@   requires len(stream) < 1<<32
+//@   ensures[C14] result == stream || cap(result) == 0 || fresh(result)
+//@   loop 2 invariant cap(out) == 0 || fresh(out)
+//@   loop 2 invariant forall k int :: 0 <= k && k < len(scNalus) ==> 3 <= scNalus[k].startPos && scNalus[k].startPos < len(stream) && (scNalus[k].startCodeLength == 3 || scNalus[k].startCodeLength == 4)
+//@   loop 2 invariant forall k int :: 0 < k && k < len(scNalus) ==> scNalus[k-1].startPos + scNalus[k].startCodeLength <= scNalus[k].startPos
+
+// ---- length-prefixed samples (4-byte big-endian NAL unit length fields) ------------------------------------------------
+// be32i(s, p): the length field at p. smpPos(s, k): position of the k-th length field when the sample is walked from 0
+// (unit k is s[smpPos(s,k)+4 : smpPos(s,k+1)]). This is THE unit sequence of a sample; every walker below is stated against it.
+//@ spec be32i(s []byte, p int) int = int(uint32(s[p])<<24 | uint32(s[p+1])<<16 | uint32(s[p+2])<<8 | uint32(s[p+3]))
+//@ spec rec smpPos(s []byte, k int) int = ite(k <= 0, 0, smpPos(s, k-1) + 4 + be32i(s, smpPos(s, k-1)))
+// smpWF(s, n): s consists of exactly n non-empty length-prefixed units.
+//@ pred smpWF(s []byte, n int) = n >= 1 && smpPos(s, n) == len(s) && (forall k int :: 0 <= k && k < n ==> smpPos(s, k)+4 < smpPos(s, k+1) && smpPos(s, k+1) <= len(s))
+// (declared `rec` although it is not recursive: the solvers then see smpType as a function symbol with a definition
+// instead of the expanded bit-vector term, which keeps quantified list invariants tractable)
+//@ spec rec smpType(s []byte, k int) NaluType = NaluType(s[smpPos(s, k)+4] & 0x1f)
+
+//@ func GetNalusFromSample
+//@   ensures[C14] result1 == nil ==> (forall k int :: 0 <= k && k < len(result0) ==> result0[k] == sample[smpPos(sample, k)+4 : smpPos(sample, k+1)])
+//@   ensures[C14] result1 == nil ==> len(sample)-4 <= smpPos(sample, len(result0)) && smpPos(sample, len(result0)) <= len(sample) && (forall k int :: 0 <= k && k < len(result0) ==> smpPos(sample, k) < len(sample)-4 && smpPos(sample, k+1) <= len(sample))
+//@   ensures[C14] forall n int :: smpWF(sample, n) ==> result1 == nil && len(result0) == n
+//@   loop 1 invariant length == len(sample) && length >= 4 && int(pos) == smpPos(sample, len(naluList)) && int(pos) <= length
+//@   loop 1 invariant forall k int :: 0 <= k && k < len(naluList) ==> ref(naluList[k]) == ref(sample)
+//@   loop 1 invariant forall k int :: 0 <= k && k < len(naluList) ==> len(naluList[k]) == smpPos(sample, k+1) - smpPos(sample, k) - 4
+//@   loop 1 invariant forall k int :: 0 <= k && k < len(naluList) ==> (ref(naluList[k]) == ref(sample) ==> naluList[k][0:0] == sample[smpPos(sample, k)+4 : smpPos(sample, k)+4])
+//@   loop 1 invariant forall k int :: 0 <= k && k < len(naluList) ==> smpPos(sample, k) < length-4 && smpPos(sample, k+1) <= length
+//@   loop 1 invariant forall n int :: smpWF(sample, n) ==> len(naluList) <= n
+
+// Walkers without a unit counter are stated against the same walk written as a forward recursion from position p:
+// smpHasType(s, p, t): some unit of the walk that starts at length field p has type t (the walk ends at the first
+// position without room for a length field plus one byte, or at a length field that points beyond the sample).
+//@ spec rec smpHasType(s []byte, p int, t NaluType) bool = ite(p < 0 || p >= len(s)-4, false, ite(NaluType(s[p+4] & 0x1f) == t, true, ite(p+4+be32i(s, p) > len(s), false, smpHasType(s, p+4+be32i(s, p), t))))
+
+// smpNoOverrun(s, p): no length field of the walk from p points beyond the sample (forward recursion like smpHasType).
+//@ spec rec smpNoOverrun(s []byte, p int) bool = ite(p < 0 || p >= len(s)-4, true, ite(p+4+be32i(s, p) > len(s), false, smpNoOverrun(s, p+4+be32i(s, p))))
+
+//@ func ContainsNaluType
+//@   ensures[C14] result == smpHasType(sample, 0, specificNalType)
+//@   loop 1 invariant length == len(sample) && length >= 4 && int(pos) <= length
+//@   loop 1 invariant smpHasType(sample, 0, specificNalType) == smpHasType(sample, int(pos), specificNalType)
+
+//@ func IsIDRSample
+//@   ensures[C14] result == smpHasType(sample, 0, NALU_IDR)
+
+// (on a sample with an overrunning length field the type byte of the broken unit is still listed; the element-wise
+// clause is stated for samples without overrun, which includes all well-formed ones: third clause)
+//@ func FindNaluTypes
+//@   ensures[C14] smpNoOverrun(sample, 0) ==> (forall k int :: 0 <= k && k < len(result) ==> result[k] == smpType(sample, k))
+//@   ensures[C14] forall n int :: smpWF(sample, n) ==> len(result) == n
+//@   ensures[C14] forall n int :: smpWF(sample, n) ==> smpNoOverrun(sample, 0)
+//@   loop 1 invariant smpNoOverrun(sample, 0) == smpNoOverrun(sample, int(pos))
+//@   loop 1 invariant length == len(sample) && length >= 4 && int(pos) == smpPos(sample, len(naluList)) && int(pos) <= length
+//@   loop 1 invariant forall k int :: 0 <= k && k < len(naluList) ==> naluList[k] == smpType(sample, k)
+//@   loop 1 invariant forall k int :: 0 <= k && k < len(naluList) ==> smpPos(sample, k) < length-4 && smpPos(sample, k+1) <= length
+//@   loop 1 invariant forall n int :: smpWF(sample, n) ==> len(naluList) <= n
+
+// smpNoOverrunV(s, p): like smpNoOverrun, but the walk stops after the first video unit.
+//@ spec rec smpNoOverrunV(s []byte, p int) bool = ite(p < 0 || p >= len(s)-4, true, ite(p+4+be32i(s, p) > len(s), false, ite(NaluType(s[p+4] & 0x1f) <= 5, true, smpNoOverrunV(s, p+4+be32i(s, p)))))
+//@ func FindNaluTypesUpToFirstVideoNALU
+//@   ensures[C14] smpNoOverrunV(sample, 0) ==> (forall k int :: 0 <= k && k < len(result) ==> result[k] == smpType(sample, k))
+//@   ensures[C14] forall n int :: smpWF(sample, n) ==> smpNoOverrunV(sample, 0)
+//@   loop 1 invariant smpNoOverrunV(sample, 0) == smpNoOverrunV(sample, int(pos))
+//@   ensures[C14] forall k int :: 0 <= k && k < len(result)-1 ==> smpType(sample, k) > 5
+//@   ensures[C14] forall n int :: smpWF(sample, n) ==> len(result) <= n
+//@   ensures[C14] forall n int :: smpWF(sample, n) && len(result) < n ==> len(result) >= 1 && smpType(sample, len(result)-1) <= 5
+//@   loop 1 invariant length == len(sample) && length >= 4 && int(pos) == smpPos(sample, len(naluList)) && int(pos) <= length
+//@   loop 1 invariant forall k int :: 0 <= k && k < len(naluList) ==> naluList[k] == smpType(sample, k)
+//@   loop 1 invariant forall k int :: 0 <= k && k < len(naluList) ==> smpType(sample, k) > 5
+//@   loop 1 invariant forall k int :: 0 <= k && k < len(naluList) ==> smpPos(sample, k) < length-4 && smpPos(sample, k+1) <= length
+//@   loop 1 invariant forall n int :: smpWF(sample, n) ==> len(naluList) <= n
+
+// HasParameterSets: "before or at the first video unit there is an SPS and there is a PPS" (npv(s, k): no video unit before unit k).
+//@ pred npv(s []byte, k int) = forall m int :: 0 <= m && m < k ==> smpType(s, m) > 5
+//@ func HasParameterSets
+//@   ensures[C14] forall n int :: smpWF(b, n) && result ==> (exists k int :: 0 <= k && k < n && smpType(b, k) == NALU_SPS && npv(b, k))
+//@   ensures[C14] forall n int :: smpWF(b, n) && result ==> (exists k int :: 0 <= k && k < n && smpType(b, k) == NALU_PPS && npv(b, k))
+//@   ensures[C14] forall n int :: smpWF(b, n) && !result ==> (forall k int :: 0 <= k && k < n && npv(b, k) ==> smpType(b, k) != NALU_SPS) || (forall k int :: 0 <= k && k < n && npv(b, k) ==> smpType(b, k) != NALU_PPS)
+//@   loop 1 invariant smpNoOverrunV(b, 0) ==> (hasSPS ==> (exists k int :: 0 <= k && k < idx(1) && smpType(b, k) == NALU_SPS && npv(b, k)))
+//@   loop 1 invariant smpNoOverrunV(b, 0) ==> (hasPPS ==> (exists k int :: 0 <= k && k < idx(1) && smpType(b, k) == NALU_PPS && npv(b, k)))
+//@   loop 1 invariant smpNoOverrunV(b, 0) ==> (!hasSPS ==> (forall k int :: 0 <= k && k < idx(1) ==> smpType(b, k) != NALU_SPS))
+//@   loop 1 invariant smpNoOverrunV(b, 0) ==> (!hasPPS ==> (forall k int :: 0 <= k && k < idx(1) ==> smpType(b, k) != NALU_PPS))
+//@   loop 1 invariant !(hasSPS && hasPPS) && 0 <= idx(1) && idx(1) <= len(naluTypeList)
+
+// ConvertSampleToByteStream (in place): cvtByte(s, p, j) is byte j of the converted sample when the walk is at length
+// field p: every length field of the walk becomes 00 00 00 01, every other byte is kept. Evaluated on the entry content.
+//@ spec rec cvtByte(s []byte, p int, j int) byte = ite(p < 0 || p+4 > len(s) || j < p, s[j], ite(j < p+4, ite(j == p+3, byte(1), byte(0)), ite(p+4+be32i(s, p) > len(s), s[j], cvtByte(s, p+4+be32i(s, p), j))))
+//@ func ConvertSampleToByteStream
+//@   ensures[C14] result == sample
+//@   ensures[C14] forall j int :: 0 <= j && j < len(sample) ==> sample[j] == old(cvtByte(sample, 0, j))
+//@   assigns sample[:]
+//@   loop 1 invariant int(sampleLength) == len(sample) && int(pos) <= len(sample)
+//@   loop 1 invariant forall j int :: int(pos) <= j && j < len(sample) ==> sample[j] == old(sample[j])
+//@   loop 1 invariant forall j int :: 0 <= j && j < int(pos) ==> sample[j] == old(cvtByte(sample, 0, j))
+//@   loop 1 invariant forall j int :: int(pos) <= j && j < len(sample) ==> old(cvtByte(sample, 0, j)) == old(cvtByte(sample, int(pos), j))
+
+// ---- byte-by-byte walkers of an Annex B stream ----------------------------------------------------------------------
+// vidAt(s, p): the unit whose first byte is s[p] is a video (VCL) unit.
+//@ spec rec vidAt(s []byte, p int) bool = NaluType(s[p] & 0x1f) <= 5
+// GetFirstAVCVideoNALUFromByteStream: the result is the view data[a:b] where a is the first start code end whose unit is
+// video (no earlier unit is video); b is the end of the stream if no start code follows, else the beginning of the next
+// start code e with trailing zero bytes removed (for well-formed streams: the beginning of the 3- or 4-byte start code).
+// A nil result means no unit of the stream is video. (An empty unit - two adjacent start codes - is outside the
+// property's domain: its 'header' is the first zero of the next start code, type 0, and an empty view is returned.)
+//@ func GetFirstAVCVideoNALUFromByteStream
+//@   ensures[C14] result != nil ==> result == data[cap(data)-cap(result) : cap(data)-cap(result)+len(result)]
+//@   ensures[C14] result != nil ==> isSC(data, cap(data)-cap(result)) && cap(data)-cap(result) < len(data) && vidAt(data, cap(data)-cap(result))
+//@   ensures[C14] result != nil ==> (forall q int :: 3 <= q && q < cap(data)-cap(result) && isSC(data, q) ==> !vidAt(data, q))
+//@   ensures[C14] result != nil ==> (cap(data)-cap(result)+len(result) == len(data) && (forall q int :: cap(data)-cap(result) < q && q < len(data) ==> !isSC(data, q))) || (exists e int :: cap(data)-cap(result) < e && e < len(data) && isSC(data, e) && (forall q int :: cap(data)-cap(result) < q && q < e ==> !isSC(data, q)) && cap(data)-cap(result)+len(result) <= e-3 && (forall m int :: cap(data)-cap(result)+len(result) <= m && m < e-3 ==> data[m] == 0) && (len(result) == 1 || data[cap(data)-cap(result)+len(result)-1] != 0))
+//@   ensures[C14] result == nil ==> (forall q int :: 3 <= q && q < len(data) && isSC(data, q) ==> !vidAt(data, q))
+//@   loop 1 invariant currNaluStart == -1 || (isSC(data, currNaluStart) && currNaluStart < n)
+//@   loop 1 invariant forall q int :: 3 <= q && q <= i+2 && q != currNaluStart && isSC(data, q) ==> !vidAt(data, q)
+//@   loop 1 invariant forall q int :: currNaluStart < q && 3 <= q && q <= i+2 ==> !isSC(data, q)
+//@   loop 2 invariant currNaluEnd == j+1 && isSC(data, currNaluStart) && isSC(data, i+3) && currNaluStart < n
+//@   loop 2 invariant forall m int :: currNaluEnd <= m && m < i ==> data[m] == 0
+//@   loop 2 invariant forall q int :: 3 <= q && q <= i+2 && q != currNaluStart && isSC(data, q) ==> !vidAt(data, q)
+//@   loop 2 invariant forall q int :: currNaluStart < q && 3 <= q && q <= i+2 ==> !isSC(data, q)
